@@ -11,7 +11,7 @@ def schema():
     from hpl import types as T
     deep = T.MessageType('Deep', fields={'z': T.FLOAT64})
     inner = T.MessageType('Inner', fields={'n': T.FLOAT64, 't': T.STRINGS, 'deep': deep})
-    other = T.MessageType('Other', fields={'n': T.STRINGS, 'q': T.FLOAT64})
+    other = T.MessageType('Other', fields={'n': T.STRINGS, 'q': T.FLOAT64, 'arr': T.ArrayType('float64[]', subtype=T.FLOAT64), 'far': T.ArrayType('float64[2]', subtype=T.FLOAT64, length=2)})
     m = T.MessageType('M', fields={
         'n': T.FLOAT64, 'k': T.INT32, 'b': T.BOOLEANS, 's': T.STRINGS,
         'xs': T.ArrayType('float64[]', subtype=T.FLOAT64), 'fx': T.ArrayType('float64[3]', subtype=T.FLOAT64, length=3),
